@@ -283,6 +283,100 @@ fn two_frame_histories(ctx: &Ctx, m128: bool) {
     );
 }
 
+/// The host asks for n frames per call (n = 1..4, the way a front end runs at double speed): the
+/// frame delivered after each call is the last one emulated, painted from the writes of that frame
+/// alone on top of the colour in effect when it began. An interrupt-driven program writes a scripted
+/// colour at a scripted time in each frame; a single-stepped twin machine records the exact I/O cycles.
+fn frames_per_call(ctx: &Ctx) {
+    let script: [(u8, u8); 8] = [(8, 6), (0, 1), (8, 2), (0xFF, 0xFF), (3, 4), (15, 5), (16, 3), (0xFF, 0xFF)];
+    let install = |e: &mut Emu| {
+        rig::poke(e, 0x9000, &[0xFB, 0x76, 0x18, 0xFC]);
+        rig::poke(
+            e,
+            0x9200,
+            &[
+                0xF5, 0xC5, 0xE5, 0x21, 0x00, 0x93, 0x34, 0x7E, 0xE6, 0x07, 0x87, 0xC6, 0x10, 0x6F, 0x46, 0x23, 0x04, 0x18, 0x05, 0x0E, 0x00, 0x0D, 0x20, 0xFD, 0x10, 0xF9, 0x7E, 0xFE, 0xFF, 0x28, 0x02, 0xD3, 0xFE, 0xE1, 0xC1, 0xF1,
+                0xFB, 0xC9,
+            ],
+        );
+        rig::poke(e, 0x9300, &[0]);
+        let table: Vec<u8> = script.iter().flat_map(|(d, c)| [if *d == 0xFF { 0 } else { *d }, *c]).collect();
+        rig::poke(e, 0x9310, &table);
+        rig::poke(e, 0xFEFF, &[0x00, 0x92]);
+        let mut r = RegsView::default();
+        r.pc = 0x9000;
+        r.sp = 0xBF00;
+        r.i = 0xFE;
+        r.im = 2;
+        r.iff1 = true;
+        r.iff2 = true;
+        rig::set_regs(e.verif_cpu(), &r);
+    };
+    for m128 in [false, true] {
+        let total = 17u64;
+        // twin: single-stepped, records (frame index, cycle start, cycle end, colour) of every OUT
+        let mut o = Opts::machine(m128);
+        o.sound = false;
+        let mut twin = rig::emu_stepping(&o);
+        install(&mut twin);
+        let mut writes: Vec<(u64, i64, i64, u8)> = Vec::new();
+        let mut guard = 0u64;
+        while twin.verif_total_frames() < total && guard < 3_000_000 {
+            guard += 1;
+            if twin.verif_cpu().regs.get_pc() == 0x921F {
+                let f = twin.verif_total_frames();
+                let t = twin.verif_frame_clocks() as i64;
+                let c = twin.verif_cpu().regs.get_acc() & 7;
+                rig::step(&mut twin);
+                writes.push((f, t + 7, twin.verif_frame_clocks() as i64, c));
+            } else {
+                rig::step(&mut twin);
+            }
+        }
+        if writes.len() < 8 {
+            eprintln!("MACHINERY: the scripted border program wrote only {} times", writes.len());
+            std::process::exit(2);
+        }
+        for n in 1..=4usize {
+            let mut o = Opts::machine(m128);
+            o.sound = false;
+            o.mode = rustzx_core::EmulationMode::FrameCount(n);
+            let mut e = rig::emu(&o);
+            install(&mut e);
+            loop {
+                let _ = e.emulate_frames(std::time::Duration::from_secs(1000));
+                let done = e.verif_total_frames();
+                if done >= total {
+                    break;
+                }
+                if done < 2 {
+                    continue;
+                }
+                // the delivered frame is frame index done-1 (0-based): writes of that frame over the colour before it
+                let f = done - 1;
+                let initial = writes.iter().filter(|w| w.0 < f).last().map(|w| w.3);
+                let initial = match initial {
+                    Some(c) => c,
+                    None => continue,
+                };
+                let in_frame: Vec<(i64, i64, u8)> = writes.iter().filter(|w| w.0 == f).map(|w| (w.1, w.2, w.3)).collect();
+                ctx.add_eval(1);
+                let case = json!({"kind":"frames-per-call","m128":m128,"frames_per_call":n,"frame":f});
+                let jd = compare(ctx, &e, m128, initial, &in_frame, case.clone(), &format!("frames-per-call:{}", if n == 1 { "one".to_string() } else { "several".to_string() }));
+                let last = writes.iter().filter(|w| w.0 <= f).last().map(|w| w.3).unwrap_or(initial);
+                if e.border_color() as u8 != last {
+                    ctx.violation(
+                        &format!("C09:frames-per-call:reported-colour:{}", if m128 { "128k" } else { "48k" }),
+                        &format!("{} frames per call, after frame {}: border_color() reports {} but the last write was {}", n, f, e.border_color() as u8, last),
+                        case,
+                    );
+                }
+                ctx.outcome(jd ^ ((n as u64) << 32) ^ (f << 40));
+            }
+        }
+    }
+}
+
 /// The very first ULA write of a freshly created machine, for each of the 8 colours (a cached
 /// "current colour" must not swallow a write that happens to equal its initial value): the next
 /// complete frame is all that colour and border_color() reports it.
@@ -374,6 +468,7 @@ pub fn run(tier: Tier, seed: u64, replay: Option<String>) -> i32 {
             "pair" => pair_writes(&ctx, m128, 8),
             "two-frame" => two_frame_histories(&ctx, m128),
             "fresh-first-write" => first_write_on_fresh_machine(&ctx),
+            "frames-per-call" => frames_per_call(&ctx),
             _ => snapshot_border(&ctx),
         }
         let n = ctx.violation_classes();
@@ -389,10 +484,11 @@ pub fn run(tier: Tier, seed: u64, replay: Option<String>) -> i32 {
     }
     snapshot_border(&ctx);
     first_write_on_fresh_machine(&ctx);
+    frames_per_call(&ctx);
     ctx.sample(json!({"write":"OUT (FE),2 with the I/O cycle at T=20000..20004","judged":"every border pixel whose beam time is more than 8 T away from the cycle"}));
     ctx.note("not_judged", json!("pixels within 16 pixels (8 T) of the I/O cycle of a write; the canvas area of the border buffer"));
     ctx.finish(
-        "one OUT (C),A to an even port (rotating over six even port addresses incl. ones that also select the 128K paging latch) executed by the emulated CPU with its start at every T of the frame (quick: complete first-visible, first-picture, middle, last-picture and last-visible lines plus both ends of the frame), every ordered pair of OUTs inside one line at three line positions (step 3 T thorough / 12 T quick), a write-free frame after every case, two-frame histories of two writes each with repeated colours at four places of the frame (576 per machine), writes straddling the frame wrap, SNA/SZX snapshot borders for all 8 colours; the completed 320x240 border buffer is compared with the beam model (pixel (x,y) at T = first_pixel + (y-24)*line + (x-32)/2) outside an 8-T band around each I/O cycle; border_color() after every write. distinct = (judged pixel count, colour) outcomes",
+        "one OUT (C),A to an even port (rotating over six even port addresses incl. ones that also select the 128K paging latch) executed by the emulated CPU with its start at every T of the frame (quick: complete first-visible, first-picture, middle, last-picture and last-visible lines plus both ends of the frame), every ordered pair of OUTs inside one line at three line positions (step 3 T thorough / 12 T quick), a write-free frame after every case, two-frame histories of two writes each with repeated colours at four places of the frame (576 per machine), writes straddling the frame wrap, SNA/SZX snapshot borders for all 8 colours; an interrupt-driven program writing a scripted colour at a scripted time of every frame, run with 1..4 frames per emulate_frames call (the delivered frame judged with the I/O cycles recorded on a single-stepped twin); the completed 320x240 border buffer is compared with the beam model (pixel (x,y) at T = first_pixel + (y-24)*line + (x-32)/2) outside an 8-T band around each I/O cycle; border_color() after every write. distinct = (judged pixel count, colour) outcomes",
         false,
         &["frame clock placed through the hook; the remaining frame is idle loop", "I/O cycle extent = from 8 T after the OUT starts to the end of the instruction"],
     )
